@@ -7,6 +7,7 @@ import hashlib
 import json
 import os
 import re
+import shutil
 import subprocess
 import sys
 import time
@@ -144,8 +145,11 @@ def extract_all(repo=None, use_cache=True, verbose=False):
         return merged, th, False
     os.makedirs(outdir, exist_ok=True)
     t0 = time.time()
+    # per-process scratch directory for the unit files: several checks may extract the same tree at the same time
+    unitdir = os.path.join(outdir, "units.%d" % os.getpid())
+    os.makedirs(unitdir, exist_ok=True)
     with ThreadPoolExecutor(max_workers=16) as ex:
-        results = list(ex.map(_extract_unit, [(u, outdir, repo) for u in sorted(units)]))
+        results = list(ex.map(_extract_unit, [(u, unitdir, repo) for u in sorted(units)]))
     bad = [(u, e) for (u, o, e) in results if e]
     if bad:
         raise AnalysisBroken("extraction failed for %d unit(s): %s" % (len(bad), "; ".join("%s: %s" % b for b in bad)))
@@ -193,6 +197,7 @@ def extract_all(repo=None, use_cache=True, verbose=False):
     with open(tmp, "w") as fh:
         fh.write(json.dumps(out, separators=(",", ":")))
     os.replace(tmp, merged)
+    shutil.rmtree(unitdir, ignore_errors=True)
     # prune old caches (keep 3 most recent)
     root = os.path.join(BUILD, "facts")
     now = time.time()
